@@ -48,6 +48,7 @@ InitX == [ph |-> "pre",          \* pre | entering | rollback | body | exiting |
           cancelled |-> FALSE,   \* P has been cancelled from outside (at most once)
           early |-> {},          \* ghost: spawned tasks that had already ended when P was cancelled
           started |-> FALSE,     \* the body started
+          again |-> FALSE,       \* a second entering of the same scope object was attempted (and refused)
           out |-> "none"]        \* what left the block
 
 Init == /\ cfg \in [D -> [en : Behaviours, ex : Behaviours]]
@@ -212,7 +213,14 @@ ChildEndLate(u) ==
   /\ ~x.cancelled /\ x.ph = "waiting" /\ Running(x) = {u}
   /\ Step(Hit([x EXCEPT !.ch[u] = "done", !.pendC = TRUE, !.lostC = (ChildErrs(x) # {})]))
 
-Next == \/ Enter \/ Cancel
+(* the scope object is entered a SECOND time after the block was left: refused - no disposable is entered again (and so
+   none is left un-exited), nothing changes *)
+ReEnter ==
+  /\ x.ph = "post" /\ ~x.again
+  /\ x' = [x EXCEPT !.again = TRUE] /\ UNCHANGED <<cfg, esp>>
+  /\ obs' = obs
+
+Next == \/ Enter \/ Cancel \/ ReEnter
         \/ \E i \in D, how \in {"ok", "fail"} : ReleaseEnterLate(i, how) \/ ReleaseExitLate(i, how)
         \/ \E u \in Ch : ChildEndLate(u)
         \/ \E o \in {"return", "E", "BaseE"} : Leave(o)
